@@ -766,7 +766,7 @@ func c10StressBook(g *Gen) string {
 	for _, p := range perm[:d] {
 		act(p)
 	}
-	for k := 20 + g.R.Intn(60); k > 0; k-- {
+	for k := 40 + g.R.Intn(120); k > 0; k-- {
 		if len(active) > 0 && g.R.Intn(5) < 3 {
 			i := g.R.Intn(len(active))
 			ops = append(ops, fmt.Sprintf("F%d", active[i]))
@@ -1033,7 +1033,7 @@ func init() {
 				g.Count("book random")
 				g.Emit(c10RandomBook(g, 3+g.R.Intn(10), 6+g.R.Intn(40)))
 			}
-			nStress := 1500
+			nStress := 2500
 			if g.Thorough() {
 				nStress = 30000
 			}
